@@ -18,7 +18,8 @@ EXPLANATION = (
     "agreement: StdOut::new selects ariadne::IndexType::Char exactly when the alpha lexer is the front end and that lexer "
     "advances offsets in chars(), Byte for delta; R6 colour/charset options flow into the ariadne Config. Not decided: "
     "span contents and rendering for every input."
-    " ADDED LATER: R7 a merged location takes line and column from its receiver: Tokens::location_of_span and the cast site build start.combined_with(end).")
+    " ADDED LATER: R7 a merged location takes line and column from its receiver: Tokens::location_of_span and the cast site build start.combined_with(end)."
+    " ROUND 8: R8-DERIVED-SPANS: a span derived from a location in the report builder has the location's own ends, unmodified (label_before_start = start..start, label_after_end = end..end); a span reaching past the location can reach past the end of the file and the renderer drops the label.")
 
 ERR = "alpha::error::Error"
 
@@ -359,12 +360,15 @@ def r8_derived_spans(run, F):
                 continue
             n += 1
             ends = {}
+            from rules import origins as _or
             for f in x.get("fields", []):
-                e = hirq.unwrap_trivial(f["e"])
-                while e.get("k") == "MethodCall" and e.get("name") == "clone":
-                    e = hirq.unwrap_trivial(e["recv"])
-                inner = hirq.unwrap_trivial(e.get("e", {})) if e.get("k") == "Field" else {}
-                ends[f["name"]] = e.get("name") if e.get("k") == "Field" and e.get("name") in ("start", "end") and inner.get("k") == "Field" and inner.get("name") == "span" else None
+                # through let-bound locals: the end is computed from exactly one of `span.start` / `span.end`, no literal, no call
+                o = _or.origins(b["hir"], f["e"], b.get("params", ()))
+                o = {k for k in o if not (k[0] == "call" and str(k[1]).endswith("clone"))}
+                which = {k[1] for k in o if k[0] == "field" and k[1] in ("start", "end")}
+                other = {k for k in o if k[0] in ("lit", "call") or (k[0] == "field" and k[1] not in ("start", "end", "span"))}
+                arith = any(y.get("k") == "Binary" for y in walk(f["e"]))
+                ends[f["name"]] = list(which)[0] if len(which) == 1 and not other and not arith and ("field", "span") in o else None
             fn = p.split("::")[-1]
             pair = (ends.get("start"), ends.get("end"))
             ok = pair in (("start", "start"), ("start", "end"), ("end", "end"))
